@@ -259,6 +259,43 @@ def g_protocol(out):
        'Decoder.__call__ (in-memory substrate): %s' % nexts, witness={'sites': nexts})
 
 
+def g_mark(out):
+    """C11/C05/C07: the back-tracking mark of the substrate is set in exactly one place of the decoders -- in
+    SingleItemDecoder.__call__, after the end-of-octets look-ahead has decided that an element follows (that region is
+    under contract: position restored unless the marker was consumed, then the call returns) and before the state machine
+    starts.  A mark set elsewhere lets CachingStreamWrapper drop octets an enclosing definite-length loop still
+    addresses by absolute position."""
+    sites = []
+    for rel in ('pyasn1/codec/ber/decoder.py', 'pyasn1/codec/cer/decoder.py', 'pyasn1/codec/der/decoder.py',
+                'pyasn1/codec/native/decoder.py'):
+        for node in ast.walk(parse(rel)):
+            if isinstance(node, (ast.Assign, ast.AugAssign)):
+                for t in (node.targets if isinstance(node, ast.Assign) else [node.target]):
+                    if isinstance(t, ast.Attribute) and t.attr in ('markedPosition', '_markedPosition'):
+                        sites.append((rel, node.lineno))
+    ok, why = False, 'expected exactly one assignment, found %r' % (sites,)
+    if len(sites) == 1 and sites[0][0] == 'pyasn1/codec/ber/decoder.py':
+        tree = parse('pyasn1/codec/ber/decoder.py')
+        fn = None
+        for cls in tree.body:
+            if isinstance(cls, ast.ClassDef) and cls.name == 'SingleItemDecoder':
+                for f in cls.body:
+                    if isinstance(f, ast.FunctionDef) and f.name == '__call__':
+                        fn = f
+        if fn is not None:
+            kinds = []
+            for st in fn.body:
+                if isinstance(st, ast.If) and ast.unparse(st.test) == 'allowEoo and self.supportIndefLength':
+                    kinds.append('eoo')
+                elif isinstance(st, ast.Assign) and ast.unparse(st) == 'substrate.markedPosition = substrate.tell()':
+                    kinds.append('mark')
+                elif isinstance(st, ast.While) and ast.unparse(st.test) == 'state is not stStop':
+                    kinds.append('loop')
+            ok = kinds == ['eoo', 'mark', 'loop']
+            why = 'top-level statements of SingleItemDecoder.__call__ in order: %r' % (kinds,)
+    ob(out, 'proto::decoders#mark-set-once-after-eoo-lookahead', ok, why, witness={'sites': sites, 'why': why})
+
+
 # ---- C12: `if LOG:` blocks are effect free (so that dropping them at extraction is sound) ------------
 # consuming stream access under `if LOG:` that is allowed, each with its justification
 LOG_EXEMPT = {
@@ -371,7 +408,7 @@ def g_value_funnel(out):
        witness={'sites': sites}, n=max(n, 1))
 
 
-GROUPS = {'value-funnel': g_value_funnel, 'decoder-tables': g_decoder_tables, 'dispatch': g_dispatch, 'errors': g_errors, 'protocol': g_protocol,
+GROUPS = {'value-funnel': g_value_funnel, 'mark': g_mark, 'decoder-tables': g_decoder_tables, 'dispatch': g_dispatch, 'errors': g_errors, 'protocol': g_protocol,
           'log-blocks': g_log_blocks}
 
 
